@@ -8,6 +8,7 @@ import (
 	"bytes"
 	"fmt"
 	"reflect"
+	"strings"
 	"testing"
 
 	"github.com/New-JAMneration/JAM-Protocol/internal/types"
@@ -57,6 +58,10 @@ type c17Case struct {
 	Placement string    `json:"placement,omitempty"` // before | after | mixed
 	// map-order mode: the iteration order of every range-over-map inside StateKeyValsToState is a
 	// scheduler choice (merklization is instrumented by vrewrite); Choices replays one execution
+	// History: what the importer was called with immediately before this import ("" = nothing,
+	// "failed-import" = a dump of another state whose last value (a service info) is truncated, so the
+	// call returns an error part-way, "other-import" = a well-formed dump of another state)
+	History   string `json:"history,omitempty"`
 	MapOrders bool  `json:"map_orders,omitempty"`
 	Choices   []int `json:"choices,omitempty"`
 }
@@ -187,6 +192,9 @@ func c17Check(r *vlib.Run, kvs0 types.StateKeyVals, root0 types.StateRoot, in ty
 		return
 	}
 	inCopy := in.DeepCopy()
+	if cs.History != "" {
+		c17History(cs.History)
+	}
 	if p, msg, site := vlib.Guard(func() { st, raw, err = m.StateKeyValsToState(inCopy) }); p {
 		r.Eval()
 		r.Space(1)
@@ -195,6 +203,31 @@ func c17Check(r *vlib.Run, kvs0 types.StateKeyVals, root0 types.StateRoot, in ty
 		return
 	}
 	c17Judge(r, kvs0, root0, st, raw, err, labels, cs, shape)
+}
+
+var c17OtherDump types.StateKeyVals
+
+// c17History calls the importer once with the dump of ANOTHER state (two services with ids not used
+// elsewhere, each with storage entries, a preimage, its lookup and an unrelated lookup), intact or with
+// its last value — the service info of the second service, keys are sorted — cut in half so that the
+// import fails after it has seen every other entry. Whatever that call does, the next import of a
+// well-formed state has to round-trip: the statement quantifies over states, not over call histories.
+func c17History(kind string) {
+	if c17OtherDump == nil {
+		other := []c17Svc{{0x0BADF00D, []c17Entry{{"st", 0, 0}, {"st", 2, 0}, {"pre", 2, 0}, {"lk", 2, 3}, {"lk", 4, 1}}},
+			{0xFEEDFACE, []c17Entry{{"st", 1, 0}, {"pre", 0, 0}, {"lk", 0, 1}, {"lk", 3, 2}}}}
+		kv, err := m.StateEncoder(c17State(nil, other))
+		if err != nil {
+			return
+		}
+		c17OtherDump = kv
+	}
+	in := c17OtherDump.DeepCopy()
+	if kind == "failed-import" {
+		last := len(in) - 1
+		in[last].Value = in[last].Value[:len(in[last].Value)/2]
+	}
+	vlib.Guard(func() { m.StateKeyValsToState(in) })
 }
 
 // c17Judge: the oracle for one completed import.
@@ -350,6 +383,10 @@ func c17Shape(svcs []c17Svc) string {
 // c17RunConfig: all orders of the service-related key-values, before / after the components.
 func c17RunConfig(r *vlib.Run, devs []cgenDev, svcs []c17Svc, mode string, allPerms bool, only *c17Case) {
 	mapOrders := mode == "lookups"
+	history := ""
+	if strings.HasPrefix(mode, "history:") {
+		history = strings.TrimPrefix(mode, "history:")
+	}
 	st := c17State(devs, svcs)
 	kvs0, err := m.StateEncoder(st)
 	if err != nil {
@@ -406,7 +443,7 @@ func c17RunConfig(r *vlib.Run, devs []cgenDev, svcs []c17Svc, mode string, allPe
 	}
 	_ = mapOrders
 	run := func(p []int, placement string) {
-		cs := c17Case{Mode: mode, Devs: devs, Svcs: svcs, Perm: append([]int(nil), p...), Placement: placement, MapOrders: mapOrders}
+		cs := c17Case{Mode: mode, Devs: devs, Svcs: svcs, Perm: append([]int(nil), p...), Placement: placement, MapOrders: mapOrders, History: history}
 		c17Check(r, kvs0, root0, build(p, placement), labels, cs, shape+" "+placement)
 	}
 	if allPerms {
@@ -490,6 +527,24 @@ func TestVerif_C17(t *testing.T) {
 			c17RunConfig(r, append([]cgenDev(nil), devs...), c17FixedSvc, "comp", false, nil)
 			return true
 		})
+	}
+
+	// (v) call history: the import is preceded by a failed / a successful import of another state's
+	// dump (state that outlives a call — pools, caches — must not leak into the next import)
+	for _, h := range []string{"history:failed-import", "history:other-import"} {
+		var cfgs [][]c17Svc
+		cfgs = append(cfgs, nil, c17FixedSvc)
+		for _, id := range []uint32{0, 255, 0x12345678, 0xFFFFFFFF} {
+			cfgs = append(cfgs, []c17Svc{{id, []c17Entry{{"st", 1, 0}, {"pre", 1, 0}, {"lk", 1, 2}, {"lk", 3, 1}}}},
+				[]c17Svc{{id, []c17Entry{{"st", 0, 0}}}}, []c17Svc{{id, nil}})
+		}
+		cfgs = append(cfgs, c17LookupConfigs()[:24]...)
+		for _, cfg := range cfgs {
+			idx++
+			if r.Mine(idx) {
+				c17RunConfig(r, nil, cfg, h, false, nil)
+			}
+		}
 	}
 
 	// (iv) service ids that collide with the special key classes, each owning a storage entry, a
